@@ -155,6 +155,11 @@ def case(draw, chain=False):
     out = {"s": s, "r": r, "ppos": base["ppos"], "pels": base["pels"], "shared": base["shared"], "atol": base["atol"],
            "hints": base["hints"], "seeds": base["seeds"], "replace_all": base["replace_all"], "modes": modes,
            "pair_mode": pair_mode, "meta": base["meta"]}
+    some_removed = base["replace_all"] or len(base["rpos"]) == 0 or len(set(int(v) for v in base["shared"].values())) < n
+    if not chain and some_removed and len(base["meta"]["copies"]) >= 2 and draw(hperm.integers(0, 2)) == 0:
+        # only a fraction of the matches is replaced (which ones is random): the terms of each replaced match must still
+        # join that match's own atoms
+        out["f"] = draw(st.sampled_from([0.5, 0.67, 0.34, 0.75]))
     if chain:
         steps = []
         for stp in range(draw(hperm.integers(1, 2))):
@@ -280,7 +285,7 @@ def find_groups(cell, model, ppos, pels, atol, hints):
     return groups, {k: g["orderings"][0] for k, g in groups.items()}, None
 
 
-def one_step(real, model, cell, ppos, pels, r, shared, atol, hints, seeds, replace_all, step, stats):
+def one_step(real, model, cell, ppos, pels, r, shared, atol, hints, seeds, replace_all, step, stats, f=1.0):
     groups, orderings, reason = find_groups(cell, model, ppos, pels, atol, hints)
     if reason:
         stats.count("skipped:" + reason)
@@ -294,11 +299,34 @@ def one_step(real, model, cell, ppos, pels, r, shared, atol, hints, seeds, repla
     except Exception as e:
         raise Violation("exception-in-construction", "%s: %r" % (type(e).__name__, e))
     try:
-        new = mf.replace(real, sp, rp, atol, hints, seeds, replace_all=replace_all)
+        if f < 1.0:
+            new, k = mf.replace(real, sp, rp, atol, hints, seeds, replace_all=replace_all, replace_fraction=f, return_num_matches=True)
+        else:
+            new, k = mf.replace(real, sp, rp, atol, hints, seeds, replace_all=replace_all), len(groups)
     except Exception as e:
         import traceback
         tb = traceback.extract_tb(e.__traceback__)
         raise Violation("exception-in-replace", "step %d: %s: %r at %s" % (step, type(e).__name__, e, tb[-1].name if tb else "?"))
+    if f < 1.0:
+        # a fraction of the matches: the replaced ones are those whose search-only atoms are gone (all of them or none)
+        sh_ = {int(a): int(b) for a, b in shared.items()} if not (replace_all or len(r["pos"]) == 0) else {}
+        nS = len(ppos)
+        s_only_ = [i for i in range(nS) if i not in sh_.values()]
+        left = {round(float(c), 9) for c in new.charges}
+        chosen = {}
+        for key in groups:
+            gone = [round(model["atoms"][orderings[key]["idx"][i]]["charge"], 9) not in left for i in s_only_]
+            if any(gone) and not all(gone):
+                raise Violation("partly-replaced-match", "step %d: match %r lost some but not all of its search-only atoms" % (step, key))
+            if gone and all(gone):
+                chosen[key] = groups[key]
+        if len(chosen) != k or abs(k - f * len(groups)) > 0.5 + 1e-9:
+            raise Violation("match-count", "step %d: fraction %r of %d matches: %r reported replaced, %d matches lost their "
+                            "search-only atoms" % (step, f, len(groups), k, len(chosen)))
+        groups = chosen
+        stats.count("fraction<1:replaced-%d" % len(chosen))
+        if not groups:
+            return None
     want = expected(model, groups, orderings, r, shared, replace_all, step)
     sh = {int(a): int(b) for a, b in shared.items()} if not replace_all else {}
     r_only = [j for j in range(len(r["pos"])) if j not in sh]
@@ -359,7 +387,8 @@ def oracle(c, stats):
             if isinstance(t["coeff"], tuple) and t["coeff"] and t["coeff"][0] == "untyped":
                 t["coeff"] = ("untyped", ("structure", t["coeff"][1]))
     cell = s["cell"]
-    res = one_step(real, model, cell, c["ppos"], c["pels"], r, c["shared"], c["atol"], c["hints"], c["seeds"], c["replace_all"], 0, stats)
+    res = one_step(real, model, cell, c["ppos"], c["pels"], r, c["shared"], c["atol"], c["hints"], c["seeds"], c["replace_all"], 0, stats,
+                   f=c.get("f", 1.0))
     if res is None:
         return
     new, want, groups = res
